@@ -40,7 +40,50 @@ def plan(tier, seed, batch):
     return [{"index": batch * 100000 + i, "seed": seed, "tier": tier} for i in range(n)]
 
 
+SWEEP_TASKS = 36
+
+
+def rule_sweep_blocks(k):
+    """Deterministic sweep over the rule-bait patterns (work/blocks.BAIT): every pattern instantiated on stack inputs,
+    once with the operands duplicated (X stays alive) and once consumed, so that each rule family is exercised in every run
+    of the check instead of by the luck of the block grammar."""
+    import random
+    pats = B.BAIT
+    per = (len(pats) + SWEEP_TASKS - 1) // SWEEP_TASKS
+    out = []
+    for pi in range(k * per, min(len(pats), (k + 1) * per)):
+        for variant in range(3):
+            r = random.Random(pi * 7 + variant)
+            g = B.Gen(r, {"pseudo": False, "bait": 0})
+            g.h = 4
+            subs = {}
+
+            def inst(t):
+                if t[0] == "ph":
+                    if t[1] not in subs:
+                        subs[t[1]] = ("slot", r.randrange(0, 4)) if variant < 2 else ("const", r.choice([0, 1, 2, 0xff, (1 << 256) - 1, 1 << 255]))
+                    return subs[t[1]]
+                if t[0] == "op":
+                    return ("op", t[1], [inst(c) for c in t[2]])
+                return t
+            g.compile(inst(pats[pi]))
+            if variant == 1:
+                g.items += [("SWAP1", None), ("POP", None)]
+            tail = r.choice([[], [("DUP2", None), ("ADD", None)], [("PUSH", "0"), ("MSTORE", None)], [("ISZERO", None)]])
+            out.append(g.items + tail + [("PUSH", "%x" % (pi + 1)), ("JUMP", None)])
+    return out
+
+
 def build_op(spec):
+    if spec["index"] < SWEEP_TASKS:
+        bl = rule_sweep_blocks(spec["index"])
+        if not bl:
+            return C.build_pipe_op(spec)
+        flags = [[], ["-size"], ["-length"], ["-push0"]][spec["index"] % 4] + ["-greedy"]
+        op = C.bl_op(bl, flags)
+        op["fmt"] = "bl"
+        op["desc"] = {"split": "none", "crit": "gas", "rules": True, "push0": "-push0" not in flags, "backend": "-greedy"}
+        return op
     return C.build_pipe_op(spec)
 
 
@@ -98,7 +141,7 @@ def minimise(v, budget=60):
     """Shrink the failing -bl op to one block and fewer instructions while the violation class stays."""
     rp = v["replay"]
     op = rp["op"]
-    if op.get("fmt") != "bl":
+    if op.get("fmt") != "bl" or "block" not in rp:
         return v
     text = op["files"][op["argv"][0]]
     lines = text.split("\n")
